@@ -322,7 +322,7 @@ def catalogue_from_tlc(ctx):
     return {str(op): {str(k): [str(c) for c in v] for k, v in dom.items()} for op, dom in pr[-1][1].items()}
 
 
-def tables(ctx, jobs, timeout=2400, attacks=()):
+def tables(ctx, jobs, timeout=2400, attacks=(), guard=True):
     """jobs: [(name, ops, maxdev)].  Per job - repaired variant: model-checked with all invariants; as-found variant: its
     terminal states (the property fails on it, see attack()).  The TLC runs go in parallel.
     -> [(merged table {(op, params): (op, params, [response classes])}, TLC result repaired, TLC result as found)]"""
@@ -358,7 +358,8 @@ def tables(ctx, jobs, timeout=2400, attacks=()):
                 raise x
         if not r.ok:
             raise tlc.MachineryError('Dispatch.tla (repaired variant, %s): %r\n%s' % (name, r, r.out[-1500:]))
-        vacuity_guard('Dispatch ' + name, r)
+        if guard:
+            vacuity_guard('Dispatch ' + name, r)
         if not rf.ok:
             raise tlc.MachineryError('Dispatch.tla (as-found variant, %s): %r\n%s' % (name, rf, rf.out[-1500:]))
         table = cases_of(r)
@@ -493,7 +494,7 @@ def replay(ctx, data):
         ndev = sum(1 for k, v in p.items() if catalogue[op][k][0] != v)
         allowed = None
         if ndev <= 3:
-            (table, _, _), = tables(ctx, [('replay', [op], ndev)])
+            (table, _, _), = tables(ctx, [('replay', [op], ndev)], guard=False)
             allowed = table.get(pkey(op, p), (op, p, None))[2]
         ref = execute(chk.world, op, p, 'benign', 0)
         rc = 0
